@@ -97,7 +97,7 @@ def verdictSeq (ops : List Op) (s : Sys) (mres : List String) (impl : String) : 
   if hasDup iwire then "viol:duplicate"
   else if iwire.any (heldNow.contains ·) then "viol:early"
   else if iclosed = "0" && accepted.any (fun t => !iwire.contains t && !heldNow.contains t) then "viol:lost"
-  else if (accepted.length > okTags ops mres |>.length) then "viol:unbounded"
+  else if accepted.length > (okTags ops mres).length then "viol:unbounded"
   else if iclosed != (if s.closed then "1" else "0") then (if s.closed then "viol:unbounded" else "viol:closed")
   else if iwire != mwire then (if iwire.length = mwire.length then "viol:order" else "viol:lost")
   else if ires != mres then "viol:result"
